@@ -326,6 +326,15 @@ Exp(res, addr, extra) ==
      inclaim |-> \E i \in 1..Len(frames') : frames'[i].kind = "claim",
      inprep |-> Len(frames') > 0 /\ frames'[Len(frames')].kind = "prep"]
 
+\* the same record for an explicitly given state (used by composite actions that append several history entries)
+ExpS(res, addr, extra, chs, c, liveset, frs, nparts) ==
+    [res |-> res, addr |-> addr, cur |-> c, pos |-> IF c = 0 THEN 0 ELSE chs[c].pos,
+     allocated |-> StatAllocated(chs, c), count |-> StatCount(chs, c), nchunks |-> Len(chs), live |-> liveset, ma |-> ma,
+     x |-> extra, fails |-> fails, nparts |-> nparts,
+     inaligned |-> \E i \in 1..Len(frs) : frs[i].kind \in {"aligned", "saligned"},
+     inclaim |-> \E i \in 1..Len(frs) : frs[i].kind = "claim",
+     inprep |-> FALSE]
+
 Step(a, args, exp) == hist' = Append(hist, [a |-> a, args |-> args, exp |-> exp]) /\ nops' = nops + 1
 
 NoX == [none |-> TRUE]
@@ -390,7 +399,11 @@ Dealloc(id, wrap) ==
     /\ Active /\ Free /\ id \in LiveIds
     /\ LET b == blocks[id]
            reclaims == ~WD(wrap) /\ cfg.dealloc /\ IsLast(chunks, cur, b.addr, b.sz)
-       IN /\ chunks' = DoDealloc(chunks, cur, b.addr, b.sz, ma, WD(wrap))
+       IN \* C13 (design level): the most recent allocation of a size that is a multiple of the minimum alignment is reclaimed;
+          \* a block that is not the most recent live allocation is never reclaimed
+          /\ Assert((last = id /\ b.sz % ma = 0 /\ cfg.dealloc /\ ~WD(wrap)) => reclaims, "C13: most recent allocation not reclaimed")
+          /\ Assert(reclaims /\ b.sz > 0 => Top(order) = id, "C13: a block that is not the most recent live allocation was reclaimed")
+          /\ chunks' = DoDealloc(chunks, cur, b.addr, b.sz, ma, WD(wrap))
           /\ blocks' = Restrict(blocks, LiveIds \ {id})
           /\ last' = 0
           /\ order' = Without(order, id)
@@ -406,7 +419,9 @@ Grow(id, l, zeroed, wrap, fail) ==
        /\ l.sz >= b.sz
        /\ fail => (CanFail /\ GrowNeedsBase(chunks, cur, b.addr, b.sz, l.sz, l.al, ma))
        /\ LET r == DoGrow(chunks, cur, base, b.addr, b.sz, l.sz, l.al, ma, fail)
-          IN /\ chunks' = r.chunks /\ cur' = r.cur /\ base' = r.base
+          IN /\ Assert((last = id /\ cfg.up /\ b.sz % ma = 0 /\ b.addr % l.al = 0 /\ l.sz <= chunks[cur].hi - b.addr) => (r.ok /\ r.addr = b.addr),
+                       "C13: growing the most recent allocation with room did not happen in place")
+             /\ chunks' = r.chunks /\ cur' = r.cur /\ base' = r.base
              /\ blocks' = IF r.ok THEN [blocks EXCEPT ![id] = [addr |-> r.addr, sz |-> l.sz, al |-> l.al]] ELSE blocks
              /\ last' = IF r.ok THEN id ELSE 0
              /\ order' = IF r.ok THEN Append(Without(order, id), id) ELSE order
@@ -458,7 +473,7 @@ Reserve(n, fail) ==
 EnterFrame(kind) ==
     /\ Active /\ Free /\ Depth < MaxDepth
     /\ kind \in {"scope", "guard"}
-    /\ frames' = Append(frames, [kind |-> kind, cp |-> Checkpoint, live |-> LiveIds, ma |-> ma, cps |-> cps])
+    /\ frames' = Append(frames, [kind |-> kind, cp |-> Checkpoint, live |-> LiveIds, ma |-> ma, cps |-> cps, alloc0 |-> StatAllocated(chunks, cur)])
     /\ cps' = <<>>
     /\ last' = 0
     /\ UNCHANGED <<cfg, base, chunks, cur, ma, blocks, nextId, order, parts, fails, dropped>>
@@ -470,7 +485,8 @@ ExitScope(how) ==
     /\ LET f == frames[Depth] IN
        /\ f.kind \in {"scope", "guard"}
        /\ LET r == ResetToCp(chunks, f.cp)
-          IN /\ chunks' = r.chunks /\ cur' = r.cur
+          IN /\ Assert(StatAllocated(r.chunks, r.cur) = f.alloc0, "C03: leaving the scope does not restore the allocated byte count")
+             /\ chunks' = r.chunks /\ cur' = r.cur
              /\ blocks' = Restrict(blocks, f.live)
              /\ order' = SelectIds(order, f.live)
              /\ parts' = parts \cap DOMAIN blocks'
@@ -488,7 +504,8 @@ GuardReset ==
     /\ LET f == frames[Depth] IN
        /\ f.kind = "guard"
        /\ LET r == ResetToCp(chunks, f.cp)
-          IN /\ chunks' = r.chunks /\ cur' = r.cur
+          IN /\ Assert(StatAllocated(r.chunks, r.cur) = f.alloc0, "C03: guard reset does not restore the allocated byte count")
+             /\ chunks' = r.chunks /\ cur' = r.cur
              /\ blocks' = Restrict(blocks, f.live)
              /\ order' = SelectIds(order, f.live)
              /\ parts' = parts \cap DOMAIN blocks'
@@ -500,7 +517,7 @@ GuardReset ==
 \* ---- unsafe checkpoint API ----------------------------------------------------------------------
 TakeCheckpoint ==
     /\ Active /\ Free /\ Len(cps) < 2
-    /\ cps' = Append(cps, [chunk |-> cur, pos |-> IF cur = 0 THEN 0 ELSE chunks[cur].pos, live |-> LiveIds])
+    /\ cps' = Append(cps, [chunk |-> cur, pos |-> IF cur = 0 THEN 0 ELSE chunks[cur].pos, live |-> LiveIds, alloc0 |-> StatAllocated(chunks, cur)])
     /\ UNCHANGED <<cfg, base, chunks, cur, ma, frames, blocks, nextId, order, parts, last, fails, dropped>>
     /\ Step("checkpoint", [k |-> Len(cps) + 1], Exp("ok", 0, NoX))
 
@@ -509,7 +526,8 @@ ResetTo(k) ==
     /\ Active /\ Free /\ k \in 1..Len(cps)
     /\ LET cp == cps[k]
            r  == ResetToCp(chunks, cp)
-       IN /\ chunks' = r.chunks /\ cur' = r.cur
+       IN /\ Assert(StatAllocated(r.chunks, r.cur) = cp.alloc0, "C03: reset_to does not restore the allocated byte count")
+          /\ chunks' = r.chunks /\ cur' = r.cur
           /\ blocks' = Restrict(blocks, cp.live)
           /\ order' = SelectIds(order, cp.live)
           /\ parts' = parts \cap DOMAIN blocks'
@@ -605,7 +623,7 @@ EnterPrep(e, rev, c0, fail) ==
                 ELSE DoPrep(chunks, cur, base, c0 * e.sz, e.al, fail)
            cap == IF c0 = 0 \/ ~r.ok THEN 0 ELSE (r.hi - r.lo) \div e.sz
        IN /\ chunks' = r.chunks /\ cur' = r.cur /\ base' = r.base
-          /\ frames' = Append(frames, [kind |-> "prep", cp |-> Checkpoint, live |-> LiveIds, ma |-> ma, cps |-> cps,
+          /\ frames' = Append(frames, [kind |-> "prep", cp |-> Checkpoint, live |-> LiveIds, ma |-> ma, cps |-> cps, alloc0 |-> StatAllocated(chunks, cur),
                                         esz |-> e.sz, eal |-> e.al, rev |-> rev, lo |-> r.lo, hi |-> r.hi, cap |-> cap, len |-> 0,
                                         failed |-> ~r.ok])
           /\ cps' = <<>> /\ last' = 0
@@ -692,6 +710,73 @@ Split(id, at) ==
        /\ UNCHANGED <<cfg, base, chunks, cur, ma, fails, dropped>>
        /\ Step("split", [id |-> id, at |-> at, nid |-> nextId], Exp("ok", b.addr + at, NoX))
 
+\* ---- composite workloads for C03 ------------------------------------------------------------------------------
+\* A workload is a sequence of layouts allocated one after the other (no failures injected).
+\* RunAllocs returns the final (chunks, cur, base) and the history entries of the allocations; ids firstId, firstId+1, ...
+RECURSIVE RunAllocs(_, _, _, _, _, _, _, _, _)
+RunAllocs(chs, c, b, ls, k, firstId, liveset, frs, flag) ==
+    IF k > Len(ls) THEN [chunks |-> chs, cur |-> c, base |-> b, steps |-> <<>>, live |-> liveset]
+    ELSE LET l == ls[k]
+             r == DoAlloc(chs, c, b, l.sz, l.al, ma, FALSE)
+             id == firstId + k - 1
+             live2 == IF r.ok THEN liveset \cup {id} ELSE liveset
+             e == [a |-> "alloc",
+                   args |-> [id |-> IF r.ok THEN id ELSE 0, sz |-> l.sz, al |-> l.al, zeroed |-> FALSE, fail |-> FALSE, again |-> flag],
+                   exp |-> ExpS(IF r.ok THEN "ok" ELSE "err", r.addr, [newchunk |-> Len(r.chunks) > Len(chs)],
+                                r.chunks, r.cur, live2, frs, Cardinality(parts))]
+             rest == RunAllocs(r.chunks, r.cur, r.base, ls, k + 1, firstId, live2, frs, flag)
+         IN [rest EXCEPT !.steps = <<e>> \o @]
+
+\* scoped(|s| W) twice in a row: the second execution of the same workload must not need new memory from the base
+\* allocator (chunks acquired inside the first scope remain available).  2 * (Len(ls) + 2) replayer steps.
+ScopeTwice(ls) ==
+    /\ Active /\ Free /\ Depth < MaxDepth /\ Len(ls) > 0
+    /\ LET fr   == [kind |-> "scope", cp |-> Checkpoint, live |-> LiveIds, ma |-> ma, cps |-> cps, alloc0 |-> StatAllocated(chunks, cur)]
+           frs  == Append(frames, fr)
+           n    == Len(ls)
+           r1   == RunAllocs(chunks, cur, base, ls, 1, nextId, LiveIds, frs, FALSE)
+           x1   == ResetToCp(r1.chunks, fr.cp)
+           fr2  == [fr EXCEPT !.cp = [chunk |-> x1.cur, pos |-> IF x1.cur = 0 THEN 0 ELSE x1.chunks[x1.cur].pos]]
+           r2   == RunAllocs(x1.chunks, x1.cur, r1.base, ls, 1, nextId + n, LiveIds, frs, TRUE)
+           x2   == ResetToCp(r2.chunks, fr2.cp)
+           enter(chs, c) == [a |-> "enter", args |-> [kind |-> "scope"], exp |-> ExpS("ok", 0, NoX, chs, c, LiveIds, frs, Cardinality(parts))]
+           exit(chs, c, cp) == [a |-> "exit", args |-> [kind |-> "scope", how |-> "return"],
+                                exp |-> ExpS("ok", 0, [entry_cur |-> cp.chunk, entry_pos |-> cp.pos], chs, c, LiveIds, frames, Cardinality(parts))]
+       IN /\ chunks' = x2.chunks /\ cur' = x2.cur /\ base' = r2.base
+          /\ nextId' = nextId + 2 * n
+          /\ last' = 0
+          /\ UNCHANGED <<cfg, ma, frames, blocks, cps, order, parts, fails, dropped>>
+          /\ hist' = hist \o <<enter(chunks, cur)>> \o r1.steps \o <<exit(x1.chunks, x1.cur, fr.cp)>>
+                           \o <<enter(x1.chunks, x1.cur)>> \o r2.steps \o <<exit(x2.chunks, x2.cur, fr2.cp)>>
+          /\ nops' = nops + 2 * (n + 2)
+
+\* `rounds` times: allocate the workload, then Bump::reset().  After finitely many rounds no chunk is requested any
+\* more; the replayer marks the last round `quiet`.
+RECURSIVE RunRounds(_, _, _, _, _, _, _)
+RunRounds(chs, c, b, ls, k, rounds, firstId) ==
+    IF k > rounds THEN [chunks |-> chs, cur |-> c, base |-> b, steps |-> <<>>]
+    ELSE LET r  == RunAllocs(chs, c, b, ls, 1, firstId, {}, <<>>, k = rounds)
+             n  == Len(r.chunks)
+             chs2 == IF r.cur = 0 THEN r.chunks ELSE <<[r.chunks[n] EXCEPT !.pos = ResetPos(r.chunks[n])]>>
+             c2 == IF r.cur = 0 THEN 0 ELSE 1
+             b2 == IF r.cur = 0 THEN r.base
+                   ELSE [r.base EXCEPT !.grants = [i \in 1..Len(r.base.grants) |->
+                            IF \E j \in 1..(n - 1) : r.chunks[j].g = i THEN [r.base.grants[i] EXCEPT !.live = FALSE] ELSE r.base.grants[i]]]
+             e  == [a |-> "reset", args |-> [none |-> TRUE, round |-> k, quiet |-> k = rounds],
+                    exp |-> ExpS("ok", 0, [kept |-> IF r.cur = 0 THEN 0 ELSE r.chunks[n].start], chs2, c2, {}, <<>>, 0)]
+             rest == RunRounds(chs2, c2, b2, ls, k + 1, rounds, firstId + Len(ls))
+         IN [rest EXCEPT !.steps = r.steps \o <<e>> \o @]
+
+ResetLoop(ls, rounds) ==
+    /\ Active /\ Free /\ Depth = 0 /\ Len(ls) > 0 /\ LiveIds = {}
+    /\ LET r == RunRounds(chunks, cur, base, ls, 1, rounds, nextId)
+       IN /\ chunks' = r.chunks /\ cur' = r.cur /\ base' = r.base
+          /\ nextId' = nextId + rounds * Len(ls)
+          /\ blocks' = <<>> /\ cps' = <<>> /\ last' = 0 /\ order' = <<>> /\ parts' = {}
+          /\ UNCHANGED <<cfg, ma, frames, fails, dropped>>
+          /\ hist' = hist \o r.steps
+          /\ nops' = nops + rounds * (Len(ls) + 1)
+
 \* ---- requests whose size computation overflows (a layout close to isize::MAX) -----------------------
 \* The fast path fails, the slow path walks the later chunks (resetting them and moving the current chunk forward)
 \* and then fails to compute a chunk size: capacity overflow, reported as an error; the base allocator is not called.
@@ -715,6 +800,7 @@ Realloc(id, wrap) ==
            antecedent == last = id /\ b.sz % ma = 0 /\ cfg.dealloc /\ ~WD(wrap)
        IN /\ ~NeedsBase(chs1, cur, b.sz, b.al, ma)
           /\ r.ok
+          /\ Assert(antecedent => r.addr = b.addr, "C13: deallocate + same request does not return the same address")
           /\ chunks' = r.chunks /\ cur' = r.cur /\ base' = r.base
           /\ blocks' = [i \in (LiveIds \ {id}) \cup {nextId} |-> IF i = nextId THEN [addr |-> r.addr, sz |-> b.sz, al |-> b.al] ELSE blocks[i]]
           /\ nextId' = nextId + 1 /\ last' = nextId
@@ -740,7 +826,7 @@ Realloc(id, wrap) ==
 \* The guard (claimant) takes over the chunk pointer; the claimed handle is inert until the guard is dropped.
 EnterClaim ==
     /\ Active /\ Free /\ Depth < MaxDepth
-    /\ frames' = Append(frames, [kind |-> "claim", cp |-> Checkpoint, live |-> LiveIds, ma |-> ma, cps |-> cps])
+    /\ frames' = Append(frames, [kind |-> "claim", cp |-> Checkpoint, live |-> LiveIds, ma |-> ma, cps |-> cps, alloc0 |-> StatAllocated(chunks, cur)])
     /\ cps' = <<>>
     /\ last' = 0
     /\ UNCHANGED <<cfg, base, chunks, cur, ma, blocks, nextId, order, parts, fails, dropped>>
@@ -785,7 +871,7 @@ ClaimedOp(lvl, op, id, l) ==
 EnterAligned(n, scoped) ==
     /\ Active /\ Free /\ Depth < MaxDepth /\ n \in {1, 2, 4, 8, 16} /\ n # ma
     /\ frames' = Append(frames, [kind |-> IF scoped THEN "saligned" ELSE "aligned", cp |-> Checkpoint, live |-> LiveIds,
-                                  ma |-> ma, cps |-> cps])
+                                  ma |-> ma, cps |-> cps, alloc0 |-> StatAllocated(chunks, cur)])
     /\ cps' = <<>>
     /\ ma' = n
     \* raising: the position is aligned before the stricter type is exposed (a dummy chunk is always aligned)
@@ -800,7 +886,8 @@ ExitAligned(how) ==
        /\ f.kind \in {"aligned", "saligned"}
        /\ IF f.kind = "saligned"
           THEN LET r == ResetToCp(chunks, f.cp)
-               IN /\ chunks' = r.chunks /\ cur' = r.cur
+               IN /\ Assert(StatAllocated(r.chunks, r.cur) = f.alloc0, "C18/C03: scoped_aligned does not restore the entry position")
+                  /\ chunks' = r.chunks /\ cur' = r.cur
                   /\ blocks' = Restrict(blocks, f.live)
                   /\ order' = SelectIds(order, f.live)
                   /\ parts' = parts \cap DOMAIN blocks'
@@ -865,6 +952,13 @@ ProjModel ==
      blocks |-> LET ids == SortedIds(LiveIds)
                 IN [i \in 1..Len(ids) |-> [id |-> ids[i], addr |-> blocks[ids[i]].addr, sz |-> blocks[ids[i]].sz, al |-> blocks[ids[i]].al]],
      ma |-> ma, up |-> cfg.up]
+
+\* C15 (design level): while an exclusive-borrow collection is open, the creation chunk keeps its position and a
+\* different current chunk is empty
+Inv_C15 == (Len(frames) > 0 /\ frames[Len(frames)].kind = "prep") =>
+              LET f == frames[Len(frames)] IN
+              /\ f.cp.chunk # 0 => chunks[f.cp.chunk].pos = f.cp.pos
+              /\ (cur # f.cp.chunk /\ cur # 0) => ChunkAllocated(chunks[cur]) = 0
 
 Inv_C01 == ~dropped => C01_Ok(ProjModel) /\ C01_Strong(ProjModel)
 Inv_C10 == ~dropped => C10_Ok(ProjModel)
